@@ -23,7 +23,7 @@ def source(ctx):
         (f_and(f_not(W), A(ready)), const_pred(0), "accepted and nothing new written: valid drops"),
         (f_and(f_not(W), f_not(A(ready))), HOLD, "not accepted: valid stays asserted (holds)"),
     ])
-    pw = writers_of(ex, payload)
+    pw = writers_of(ex, payload, "any")
     ok = len(pw) == 1 and enclosing_body(ex, pw[0].fact) is w and is_sync(pw[0].fact.domain) and pw[0].rhs == ("a", ("arg", w.bodyid), "data") and equivalent(pw[0].guard, W) is None
     ctx.check(ok, "C29.source-payload-stable", pw[0].fact.site if pw else w.site, "StreamSource.payload", found="; ".join(f"{tstr(x.fact.domain)} += payload.eq({tstr(x.rhs)}) if {fstr(x.guard)}" for x in pw) or "no driver",
               required="the payload register changes only when write runs (stable while waiting for the consumer)")
